@@ -335,7 +335,7 @@ fn search_props(prop: &str, tier: &str, seed: u64, threads: usize, out: &str) {
             let mut small_rng = Rng::new(i as u64 + 11);
             let reqs = gen_search::requests(&p, fl, &g, false, Some(&mut small_rng));
             // a sample of the requests (every 5th), all of them would take the model too long
-            l.extend(reqs.into_iter().enumerate().filter(|(j, _)| j % 5 == 0).map(|(_, r)| r).take(40));
+            l.extend(reqs.into_iter().enumerate().filter(|(j, _)| j % 5 == 0).map(|(_, r)| r).take(16));
             l
         });
         extra.insert("large".into(), format!("{nbig} graphs with 900-1400 nodes"));
@@ -1203,7 +1203,7 @@ fn main() {
     match cmd {
         "run" => {
             let _ = exec::INFLIGHT_DIR.set(out.clone());
-            exec::start_watchdog(std::env::var("VERIF_CASE_LIMIT_S").ok().and_then(|x| x.parse().ok()).unwrap_or(60));
+            exec::start_watchdog(std::env::var("VERIF_CASE_LIMIT_S").ok().and_then(|x| x.parse().ok()).unwrap_or(120));
             let prop = arg(&args, "--prop", "");
             match prop.as_str() {
                 "C01" | "C02" | "C03" => edge_props(&prop, &tier, seed, threads, &out),
